@@ -1,5 +1,7 @@
 (* Model of cellmlmanip.parser.Transpiler (parser.py 592-1023): MathML element tree -> SymPy expression.
-   Mirrors what the code does, including what it accepts although it should not (DESIGN section 6, F13).
+   Mirrors what the code does after the repairs of operator-only-apply, ln-two-operands, cn-python-only-spelling,
+   diff-degree-not-positive-integer and ignored-children, including what it still accepts although it should not
+   (KNOWN_FINDINGS.txt: qualifier-misuse).
    SymPy constructors are kept UNEVALUATED (x - y = Add(x, Mul(-1, y)), x / y = Mul(x, Pow(y, -1)),
    root(x, n) = Pow(x, Pow(n, -1)), log(x, b) = Mul(log x, Pow(log b, -1))); the correspondence therefore
    compares values, not shapes.  No proofs in this file. *)
@@ -92,13 +94,20 @@ Definition sep_tag : name := N "sep".
 Open Scope Z_scope.
 
 (* __init__ installs _simple_operator_handler for every key of the simple table AFTER the literal
-   (so the table wins); _simple_operator_handler wraps the class when the tag is an n-ary relation. *)
+   (so the table wins); _simple_operator_handler wraps the class when the tag is an n-ary relation, and into a
+   one-argument lambda when the tag is in MATHML_UNARY_OPERATORS. *)
 Definition tag_kind (tag : name) : option hkind :=
   match alookup tag simple_table with
   | Some s =>
       match alookup s sympy_table with
-      | Some (HOp (KRel r)) => Some (HOp (if name_in tag nary_relations then KChain r else KRel r))
-      | Some h => if name_in tag nary_relations then None else Some h
+      | Some (HOp (KRel r)) =>
+          if name_in tag unary_operators then None
+          else Some (HOp (if name_in tag nary_relations then KChain r else KRel r))
+      | Some (HOp KLogC) =>
+          if name_in tag nary_relations then None
+          else Some (HOp (if name_in tag unary_operators then KFn1 fn_log else KLogC))   (* lambda operand: log(operand) *)
+      | Some (HOp (KFn1 f)) => if name_in tag nary_relations then None else Some (HOp (KFn1 f))
+      | Some h => if name_in tag nary_relations || name_in tag unary_operators then None else Some h
       | None => None
       end
   | None =>
@@ -119,17 +128,10 @@ Definition encode (s : list Z) : Z := fold_left (fun a c => a * 256 + c) s 1.
 
 Definition is_digit (c : Z) : bool := (48 <=? c) && (c <=? 57).
 
-(* digit (["_"] digit)*  after the first digit: accumulated value, number of digits, rest *)
+(* [0-9]*  after the first digit: accumulated value, number of digits, rest *)
 Fixpoint digits_rest (acc n : Z) (s : list Z) : Z * Z * list Z :=
   match s with
-  | c :: r =>
-      if is_digit c then digits_rest (acc * 10 + (c - 48)) (n + 1) r
-      else if c =? 95 then
-        match r with
-        | d :: r' => if is_digit d then digits_rest (acc * 10 + (d - 48)) (n + 1) r' else (acc, n, s)
-        | [] => (acc, n, s)
-        end
-      else (acc, n, s)
+  | c :: r => if is_digit c then digits_rest (acc * 10 + (c - 48)) (n + 1) r else (acc, n, s)
   | [] => (acc, n, [])
   end.
 
@@ -139,28 +141,33 @@ Definition digitpart (acc : Z) (s : list Z) : option (Z * Z * list Z) :=
   | [] => None
   end.
 
-(* number ::= [digitpart] "." digitpart | digitpart ["."] : integer of all digits, fractional digits, rest *)
+(* _CN_DECIMAL without the sign: [0-9]+\.?[0-9]* | \.[0-9]+ : integer of all digits, fractional digits, rest *)
 Definition number (s : list Z) : option (Z * Z * list Z) :=
   match digitpart 0 s with
   | Some (ip, _, rest) =>
       match rest with
-      | 46 :: rest' =>
-          match digitpart ip rest' with
-          | Some r => Some r
-          | None => Some (ip, 0, rest')
-          end
-      | _ => Some (ip, 0, rest)
+      | c :: rest' =>
+          if c =? 46 then
+            match digitpart ip rest' with
+            | Some r => Some r
+            | None => Some (ip, 0, rest')
+            end
+          else Some (ip, 0, rest)
+      | [] => Some (ip, 0, [])
       end
-  | None => match s with 46 :: rest' => digitpart 0 rest' | _ => None end
+  | None => match s with
+            | c :: rest' => if c =? 46 then digitpart 0 rest' else None
+            | [] => None
+            end
   end.
 
 Definition split_sign (s : list Z) : bool * list Z :=
   match s with
-  | 43 :: r => (false, r)
-  | 45 :: r => (true, r)
-  | _ => (false, s)
+  | c :: r => if c =? 43 then (false, r) else if c =? 45 then (true, r) else (false, s)
+  | [] => (false, [])
   end.
 
+(* _CN_INTEGER on the stripped text: [+-]?[0-9]+ *)
 Definition py_int (s : list Z) : option Z :=
   let sb := split_sign (strip s) in
   match digitpart 0 (snd sb) with
@@ -172,14 +179,7 @@ Definition py_int (s : list Z) : option Z :=
 Definition q10 (v p : Z) : Q :=
   if 0 <=? p then inject_Z (v * 10 ^ p) else Qmake v (Z.to_pos (10 ^ (- p))).
 
-Inductive fval := FNum (q : Q) | FInf (neg : bool) | FNan.
-
-Definition lower (c : Z) : Z := if (65 <=? c) && (c <=? 90) then c + 32 else c.
-Open Scope string_scope.
-Definition s_inf := N "inf". Definition s_infinity := N "infinity". Definition s_nan := N "nan".
-Open Scope Z_scope.
-
-(* [sign] number, everything consumed: signed integer of all digits and the number of fractional digits *)
+(* _CN_DECIMAL: [sign] number; signed integer of all digits, number of fractional digits, rest *)
 Definition signed_number (s : list Z) : option (Z * Z * list Z) :=
   let sb := split_sign s in
   match number (snd sb) with
@@ -187,32 +187,20 @@ Definition signed_number (s : list Z) : option (Z * Z * list Z) :=
   | None => None
   end.
 
-(* float(s) for a stripped string; the exact decimal value stands for the nearest double *)
-Definition py_float (s : list Z) : option fval :=
+(* _CN_REAL on a stripped string, then float(): a decimal with an optional exponent; the exact decimal value
+   stands for the nearest double *)
+Definition py_real (s : list Z) : option Q :=
   match signed_number s with
-  | Some (v, k, []) => Some (FNum (q10 v (- k)))
+  | Some (v, k, []) => Some (q10 v (- k))
   | Some (v, k, c :: rest) =>
       if (c =? 101) || (c =? 69) then
         let eb := split_sign rest in
         match digitpart 0 (snd eb) with
-        | Some (e, _, []) => Some (FNum (q10 v ((if fst eb then - e else e) - k)))
+        | Some (e, _, []) => Some (q10 v ((if fst eb then - e else e) - k))
         | _ => None
         end
       else None
-  | None =>
-      let sb := split_sign s in
-      let low := map lower (snd sb) in
-      if name_eqb low s_inf || name_eqb low s_infinity then Some (FInf (fst sb))
-      else if name_eqb low s_nan then Some FNan
-      else None
-  end.
-
-Definition fval_expr (f : fval) : expr :=
-  match f with
-  | FNum q => ENum 2 q
-  | FInf false => EConst 2
-  | FInf true => EConst 3
-  | FNan => EConst 4
+  | None => None
   end.
 
 (* ---- token handlers --------------------------------------------------------------------------- *)
@@ -222,32 +210,23 @@ Definition ci_handler (text : list Z) : tres tval :=
   | _ => TOk (TE (EVar (encode (strip text))))
   end.
 
+(* _number_text turns a missing text into '' : every malformed part is a ValueError *)
 Definition cn_handler (ty : Z) (text : list Z) (ch : list mtree) : tres tval :=
   if ty =? 0 then
-    match text with
-    | [] => TErr EAttr
-    | _ => match py_float (strip text) with
-           | Some f => TOk (TE (fval_expr f))
-           | None => TErr EValue
-           end
+    match ch with
+    | _ :: _ => TErr EValue                   (* a plain <cn> has no child elements *)
+    | [] => match py_real (strip text) with
+            | Some q => TOk (TE (ENum 2 q))
+            | None => TErr EValue
+            end
     end
   else if ty =? 1 then
     match ch with
     | [MElem stag _ _ stail _] =>
         if name_eqb stag sep_tag then
-          match text, stail with
-          | [], _ => TErr EAttr
-          | _, [] => TErr EAttr
-          | _, _ =>
-              match py_int stail with
-              | None => TErr EValue
-              | Some e =>
-                  (* float('%se%d' % (mantissa, exponent)): the mantissa must be [sign] number *)
-                  match signed_number (strip text) with
-                  | Some (v, k, []) => TOk (TE (ENum 2 (q10 v (e - k))))
-                  | _ => TErr EValue
-                  end
-              end
+          match signed_number (strip text), py_int stail with
+          | Some (v, k, []), Some e => TOk (TE (ENum 2 (q10 v (e - k))))    (* float('%se%d' % (mantissa, exponent)) *)
+          | _, _ => TErr EValue
           end
         else TErr EValue
     | _ => TErr EValue
@@ -344,6 +323,10 @@ Definition int_of_expr (e : expr) : option Z :=
   | _ => None
   end.
 
+(* order == float(x) for the truncated order *)
+Definition is_whole (e : expr) (n : Z) : bool :=
+  match e with ENum _ q => Qnum q =? n * Zpos (Qden q) | _ => false end.
+
 (* sympy.Derivative accepts only symbols (and applied undefined functions) as differentiation variable *)
 Definition wrt_ok (e : expr) : bool := match e with EVar _ => true | _ => false end.
 
@@ -359,8 +342,7 @@ Definition diff_call (b y : tval) : tres tval :=
                | TE de =>
                    match int_of_expr de with
                    | Some n =>
-                       if n <? 0 then TErr EValue
-                       else if n =? 0 then ok_e ye
+                       if negb (is_whole de n) || (n <? 1) then TErr EValue      (* order != float(degree) or order < 1 *)
                        else if wrt_ok bv then ok_e (EDeriv ye bv n) else TErr EValue
                    | None => TErr EType
                    end
@@ -409,11 +391,14 @@ Definition call_kind (k : kind) (args : list tval) : tres tval :=
          end
   end.
 
-(* _apply_handler: "call the first result with the rest" *)
+(* isinstance(x, sympy.Basic) *)
+Definition is_basic (v : tval) : bool := match v with TE _ | TOpaque => true | _ => false end.
+
+(* _apply_handler: "call the first result with the rest"; an <apply> around a single value is tolerated *)
 Definition apply_handler (vs : list tval) : tres tval :=
   match vs with
-  | [] => TErr EIndex
-  | [v] => TOk v
+  | [] => TErr EValue
+  | [v] => if is_basic v then TOk v else TErr EValue
   | TOp k :: args => call_kind k args
   | _ :: _ => TErr EType                       (* object is not callable *)
   end.
@@ -492,16 +477,27 @@ Definition trs_of (rec : mtree -> tres tval) : list mtree -> tres (list tval) :=
                 end
     end.
 
+(* token, operator and constant elements must not have child elements *)
+Definition leaf_violation (tag : name) (ch : list mtree) : bool :=
+  negb (name_in tag container_tags) && match ch with [] => false | _ => true end.
+
 Fixpoint tr (t : mtree) : tres tval :=
   match t with
   | MElem tag ty text tail ch =>
       match tag_kind tag with
       | None => TErr EValue
-      | Some h => handle h ty text ch (trs_of tr ch)
+      | Some h => if leaf_violation tag ch then TErr EValue else handle h ty text ch (trs_of tr ch)
       end
   end.
 
 Definition trs : list mtree -> tres (list tval) := trs_of tr.
+
+(* parse_tree, for one child of <math>: only SymPy objects are returned *)
+Definition parse_one (t : mtree) : tres tval :=
+  match tr t with
+  | TOk v => if is_basic v then TOk v else TErr EValue
+  | TErr e => TErr e
+  end.
 
 (* ---- bridge ----------------------------------------------------------------------------------- *)
 Fixpoint mtree_of_sexp (x : sexp) : mtree :=
@@ -523,4 +519,4 @@ Definition sexp_of_tres (r : tres tval) : sexp :=
   end.
 
 (* @run 20 run_transpile *)
-Definition run_transpile (x : sexp) : sexp := sexp_of_tres (tr (mtree_of_sexp x)).
+Definition run_transpile (x : sexp) : sexp := sexp_of_tres (parse_one (mtree_of_sexp x)).
